@@ -12,20 +12,127 @@ RULE = ('generated projects (static/shared/dual libraries, executables using the
         'default, test) built by the real GNU Make with logging stub tools; per project: full build, no-op second build, then for every '
         'source / intermediate / generated input one touch + rebuild, executed step set compared with the downstream set of the '
         "generator's own DAG; DefaultOutputs operation sequences vs the model. A case is non-trivial when the touched file has at "
-        'least one downstream step; distinct by (project, touched file). W:emit: random scripts driven through the real builtins in an '
+        'least one downstream step; distinct by (project, touched file). Variant detection: the real multitarget_rule of the tree under '
+        'test is probed once (a 2-output build_step through the real Make rule handler; does the rule "outs: first.stamp" carry a recipe?); '
+        'the answer selects the Rule tuples the emitter model is compared with (fx) and whether finding C03-make-stamp-consumer-stale '
+        'applies to this run (repaired tree: not suppressed, a stale consumer is a violation; unrepaired tree: suppressed only while the '
+        'finding is recorded as open). W:emit: random scripts driven through the real builtins in an '
         'in-process build context (compile with header file objects / pch given as object or by name / extra_deps / a second output, '
         'static and shared libraries with libs=, executables sharing object files, nested output directories, command and build_step with '
         'file nodes in the command line, 1-3 outputs, always_outdated, copy_file, alias, test, test_deps, default, install): per edge the '
         'Rule / Build tuples of the real Make and Ninja handlers vs Graph/Emit.v, per script the hooks, and - independent of the model - the '
         'prerequisites of every output vs what the SCRIPT declares (written down by the generator from the arguments it passes). '
-        'R:stampsem: stamp-shaped rule graphs (2-3 outputs, 1-3 consumers, chains, goal orders, touch / delete of inputs, outputs, stamp) '
-        'in GNU Make vs StampSem.dmake. Dependency-shape projects (projgen.generate_graph): every output named, declared DAG next to '
+        'R:stampsem: (a) stamp-shaped rule graphs (2-3 outputs, 1-3 consumers, chains, goal orders, touch / delete of inputs, outputs, '
+        'stamp) with BOTH shapes of the outs rule - no recipe / the no-op recipe "@:", chosen per graph - and the stamp written 0 or 1 '
+        'ticks after the outputs, first the witnesses of stamp_consumers_refuted and stamp_consumers_repaired; (b) random abstract '
+        'scripts (half of them a 2-3-output build_step with 1-3 build_step / copy_file consumers and the session make, make, touch a source, '
+        'make, make; the others compile / link / command / build_step with 1-3 outputs, copy_file) turned into walk-semantics rules by EmitStamp.xsem_steps '
+        'for fx in {false, true}, lag in {0, 1}; in GNU Make vs StampSem.dmake: per make the real recipes run, the no-op recipes run '
+        '(make --trace) and the exit status. System scenario, always run: 2-output build_step from gen.in with one consumer step per '
+        'output, real configure + make: build, no-op build, touch gen.in + build (step and both consumers re-created), no-op build. '
+        'Dependency-shape projects (projgen.generate_graph): every output named, declared DAG next to '
         'the script; emitted edges of both backends vs the DAG, then touch of every source and of half the intermediates with real make')
 TRUSTED = ('mtime build semantics: the real GNU Make 4.3 (system level); Make/MakeSem.v model for the generic theorems',
-           'Graph/StampSem.v dmake (depth-first walk with cached mtimes) validated against GNU Make 4.3 on this run (R:stampsem)',
+           'Graph/StampSem.v dmake (depth-first walk with cached mtimes; recipe kinds none / real / no-op, lag of the stamp) validated '
+           'against GNU Make 4.3 on this run (R:stampsem, both rule shapes); which no-op recipes Make ran is read from make --trace '
+           '("update target ... due to" / "target ... does not exist"), cross-checked on the real recipes against their own log',
+           'variant detection: the probe (harness/c03.py stamp_variant) runs the real build_step builtin and the real Make rule handler '
+           'of the tree under test and reads Makefile._rules; a failing probe is reported, not assumed',
            'emitter model: an Edge is abstracted to its attribute dump (abstract_step); the spelling of .stamp / .dir names is '
            'taken from the real Path.addext / parent / append (C12); one producer per file is C05',
            'Ninja graph read through the reference evaluator (no ninja binary)')
+
+
+# ----------------------------------------------------------------------------- which multitarget_rule is under test
+STAMP_ID = 'C03-make-stamp-consumer-stale'
+STAMP_CLASS = 'make-stamp-output-consumer-stale'
+_VARIANT = {}
+
+
+def stamp_variant(rep=None):
+    """The variant of backends/make/writer.py multitarget_rule in the tree under test, found by running the REAL
+    function: a 2-output build_step created by the real builtin is handed to the real Make rule handler with a real
+    Makefile object; True iff the rule registered for 'a.txt b.txt: a.txt.stamp' carries a non-empty recipe (the
+    repaired shape, recipe '@:'), False when it has none (as first written).  Probed once per process.  A probe that
+    cannot run is reported (no-failing-input-found) and counts as 'not repaired'."""
+    if 'v' in _VARIANT:
+        return _VARIANT['v']
+    import logging
+    try:
+        from . import c14
+        from bfg9000 import builtins as B
+        B.init()
+        from bfg9000.backends.make import writer as make
+        logging.disable(logging.WARNING)
+        env = c14.make_env((True, True))
+        build, ctx = c14.make_context(env)
+        ctx['project']('variantprobe')
+        outs = list(ctx['build_step'](['a.txt', 'b.txt'], cmd=['tool', 'x']))
+        mk = make.Makefile('build.bfg', False, gnu=True)
+        make.rule_handler.run([outs[0].creator], build, mk, env)
+        rules = [r for r in mk._rules if len(r.targets) == 2 and all(t in outs for t in r.targets)]
+        stamps = [r for r in mk._rules if len(r.targets) == 1 and r.recipe]
+        if len(rules) != 1 or len(mk._rules) != 2 or len(stamps) != 1:
+            raise RuntimeError('a 2-output build_step registered %d rules, %d of them with both outputs as targets' % (
+                len(mk._rules), len(rules)))
+        _VARIANT['v'] = bool(rules[0].recipe)
+        _VARIANT['detail'] = 'rule %r: recipe %s' % (
+            ' '.join(Names().key(t) for t in rules[0].targets) + ': ' + ' '.join(Names().key(d) for d in rules[0].deps),
+            'absent' if not rules[0].recipe else 'present (%d line%s)' % (len(rules[0].recipe), '' if len(rules[0].recipe) == 1 else 's'))
+    except Exception:
+        import traceback
+        _VARIANT['v'] = False
+        _VARIANT['detail'] = 'probe failed'
+        if rep is not None:
+            rep.fail('the variant of multitarget_rule in the tree under test could not be determined (probe through the real '
+                     'build_step / make rule handler failed)', {'obligation': 'variant probe', 'traceback': traceback.format_exc()},
+                     found_input=False)
+    finally:
+        logging.disable(logging.NOTSET)
+    return _VARIANT['v']
+
+
+def own_findings():
+    import json
+    try:
+        return json.load(open(os.path.join(common.VERIF, 'findings.d', 'C03.json')))
+    except (OSError, ValueError):
+        return []
+
+
+def stamp_finding_status():
+    """top-level status of the stamp finding in findings.d/C03.json ('open' until the repair has landed in /repo)"""
+    for k in own_findings():
+        if k.get('id') == STAMP_ID:
+            return k.get('status')
+    return None
+
+
+def model_variant(rep=None):
+    """The multitarget_rule the emitter MODEL is run with (fx of Graph/Emit.v): the repaired shape when the tree under test
+    has it, and also - whatever the tree has - once the finding is recorded as fixed: a tree that lost the recipe again
+    then disagrees with the model in W:emit as well."""
+    return bool(stamp_variant(rep) or stamp_finding_status() == 'fixed')
+
+
+def select_findings(rep):
+    """Which known findings apply to THIS run.  findings.d/C03.json is authoritative for its ids (known_findings.json is
+    merged from it by the coordinator).  The stamp finding depends on the variant of multitarget_rule under test:
+      repaired tree              -> it counts as FIXED: not in rep.known, no KNOWN-FINDING line, a stale consumer is a VIOLATION;
+      unrepaired, status 'open'  -> known finding (KNOWN-FINDING line);
+      unrepaired, status 'fixed' -> a regression: nothing is suppressed, a stale consumer is a VIOLATION.
+    Returns (repaired, top-level status)."""
+    repaired = stamp_variant(rep)
+    own = [k for k in own_findings() if k.get('property') == 'C03']
+    ids = set(k['id'] for k in own)
+    rep.known = [k for k in rep.known if k['id'] not in ids]
+    for k in own:
+        if k.get('status') != 'open':
+            continue
+        if k['id'] == STAMP_ID and repaired:
+            continue
+        rep.known.append(k)
+    return repaired, stamp_finding_status()
 
 
 # ----------------------------------------------------------------------------- DefaultOutputs vs model
@@ -373,6 +480,11 @@ def stage_w_emit(rep, rng, n, tag='W:emit'):
     from bfg9000.backends.make import writer as make
     from bfg9000.backends.ninja import writer as ninja
     import logging
+    # the variant of multitarget_rule: probed on the tree under test (this stage is also called by harness/c06.py)
+    repaired = stamp_variant(rep)
+    fx = model_variant(rep)
+    rep.count('w-emit:multitarget_rule of the tree under test %s the no-op recipe; model run with fx=%s' % (
+        'registers' if repaired else 'does not register', fx))
     logging.disable(logging.WARNING)
     env = c14.make_env((True, True))
     calls, impl, metas = [], [], []
@@ -417,7 +529,7 @@ def stage_w_emit(rep, rng, n, tag='W:emit'):
                 rejected = True
                 break
             real_m, real_n = mrules(mk._rules[n0:], nm), nbuilds(nj._builds[m0:], nm)
-            calls.append(('emit.make_step', [st])); impl.append(real_m); metas.append(nm)
+            calls.append(('emit.make_step', [fx, st])); impl.append(real_m); metas.append(nm)
             calls.append(('emit.ninja_step', [has, st])); impl.append([real_n, nj.has_build('PHONY')]); metas.append(nm)
             calls.append(('emit.step_info', [st])); impl.append([True, None]); metas.append(nm)
             kind = type(e).__name__
@@ -473,7 +585,7 @@ def stage_w_emit(rep, rng, n, tag='W:emit'):
         script = [steps, names, [nm.id(x) for x in build['defaults'].outputs],
                   [[[nm.id(x) for x in tinputs], [nm.id(x) for x in tin.extra_deps]]] if tin else [],
                   has_inst, has_uninst]
-        calls.append(('emit.make', [script])); impl.append(mrules(mk._rules, nm)); metas.append(nm)
+        calls.append(('emit.make', [fx, script])); impl.append(mrules(mk._rules, nm)); metas.append(nm)
         calls.append(('emit.ninja', [script])); impl.append(nbuilds(nj._builds, nm)); metas.append(nm)
         rep.case('emit-script:%r' % (script,), True)
         # ---- direct oracle on the implementation, script level: what the SCRIPT says each step consumes (written down
@@ -558,26 +670,40 @@ def stage_w_emit(rep, rng, n, tag='W:emit'):
 
 # ----------------------------------------------------------------------------- R: StampSem.dmake vs real make
 XSTAMP_SH = '''#!/bin/sh
-# xstamp.sh target also... : log the target, give it and the also-files the next clock value, advance the clock
+# xstamp.sh lag phony target also... : log the target; the also-files get the clock value n, the target itself (unless
+# phony) n+lag - touch $@ is the last line of a stamp recipe -; the clock becomes n+lag+1
 n=$(cat ctr)
-echo "$1" >> log
+lag=$1
+phony=$2
+t=$3
+shift 3
+echo "$t" >> log
 for f in "$@"; do touch -d "@$n" "$f"; done
-echo $((n+1)) > ctr
+if [ "$phony" = 0 ]; then touch -d "@$((n+lag))" "$t"; fi
+echo $((n+lag+1)) > ctr
 '''
+R_NONE, R_REAL, R_NOOP = 0, 1, 2
+TRACE_RE = re.compile(r"^Makefile:\d+: (?:update target 'f(\d+)' due to: .*|target 'f(\d+)' does not exist)$")
 
 
 def gen_stamp_graph(rng, rep):
-    """Stamp-shaped rule graphs as multitarget_rule writes them, with consumers: [target, prereqs, order, recipe, phony, also]."""
+    """Stamp-shaped rule graphs as multitarget_rule writes them, with consumers:
+    [target, prereqs, order, recipe (0 none / 1 real / 2 the no-op '@:'), phony, also, lag]; the outs rules of one graph have
+    no recipe (as first written) or the no-op recipe (repaired), the stamp is written lag (0 / 1) ticks after the outputs."""
     ni = rng.randint(1, 2)
     inputs = list(range(1, ni + 1))
     k = rng.choice([2, 2, 3])
     outs = list(range(10, 10 + k))
     stamp = 19
-    rules = [[o, [stamp], [], False, False, []] for o in outs]
-    rules.append([stamp, rng.sample(inputs, rng.randint(1, ni)), [], True, False, outs])
+    okind = rng.choice([R_NONE, R_NOOP])
+    lag = rng.choice([0, 1])
+    rep.count('stampsem:outs rule %s, stamp touched %d tick(s) after the outputs' % (
+        'without recipe' if okind == R_NONE else 'with the no-op recipe', lag))
+    rules = [[o, [stamp], [], okind, False, [], 0] for o in outs]
+    rules.append([stamp, rng.sample(inputs, rng.randint(1, ni)), [], R_REAL, False, outs, lag])
     mids = []
     if rng.random() < 0.4:           # an ordinary single-output step next to it
-        rules.append([30, rng.sample(inputs + outs, rng.randint(1, 2)), [], True, False, []])
+        rules.append([30, rng.sample(inputs + outs, rng.randint(1, 2)), [], R_REAL, False, [], 0])
         mids.append(30)
     cons = []
     for c in range(20, 20 + rng.randint(1, 3)):
@@ -585,10 +711,10 @@ def gen_stamp_graph(rng, rep):
         prs = rng.sample(pool, rng.randint(1, min(3, len(pool))))
         if not set(prs) & set(outs) and rng.random() < 0.8:
             prs.append(rng.choice(outs))
-        rules.append([c, prs, [], True, False, []])
+        rules.append([c, prs, [], R_REAL, False, [], 0])
         cons.append(c)
     if rng.random() < 0.4:
-        rules.append([40, rng.sample(cons, rng.randint(1, len(cons))), [], True, False, []])
+        rules.append([40, rng.sample(cons, rng.randint(1, len(cons))), [], R_REAL, False, [], 0])
         cons.append(40)
     goals = rng.sample(cons + mids + outs, rng.randint(1, len(cons) + 1))
     if rng.random() < 0.5:
@@ -613,17 +739,93 @@ def gen_stamp_graph(rng, rep):
     return rules, goals, [[i, 100 + 2 * i] for i in inputs], ops
 
 
+def gen_abstract_script(rng, rep):
+    """A small well-formed abstract script (wire format of abstract_step): compile / link / command / build_step steps with
+    1-3 outputs in 1-3 directories and copy_file, every consumed file a source or an output of an earlier step."""
+    nsrc = rng.randint(1, 3)
+    avail = list(range(1, nsrc + 1))
+    nxt = 10
+    steps = []
+    if rng.random() < 0.5:
+        # the shape of the finding: a 2-3-output build_step from sources, then 1-3 single-output consumers (build_step /
+        # copy_file) of its outputs, of sources and of earlier consumers; at least one consumes an output of the first step
+        k = rng.choice([2, 2, 3])
+        multi_outs = list(range(nxt, nxt + k))
+        steps.append([3, [[o, 0] for o in multi_outs], [], [], [], [], [], [], rng.sample(avail, rng.randint(1, nsrc)), [], [], [], False, False])
+        nxt += k
+        avail += multi_outs
+        for c in range(rng.randint(1, 3)):
+            ins = rng.sample(avail, rng.randint(1, min(2, len(avail))))
+            if c == 0 and not set(ins) & set(multi_outs):
+                ins[0] = rng.choice(multi_outs)
+            if rng.random() < 0.5:
+                steps.append([3, [[nxt, 0]], [], [], [], [], [], [], ins, [], [], [], False, False])
+            else:
+                steps.append([4, [[nxt, 0]], [ins[0]], [], [], [], [], [], [], [], [], ins[1:], False, False])
+            avail.append(nxt)
+            nxt += 1
+        rep.count('stampsem-x:script = %d-output build_step + %d consumers' % (k, len(steps) - 1))
+        return steps, True
+    for _ in range(rng.randint(2, 5)):
+        kind = rng.choice([0, 1, 2, 3, 3, 4])
+        k = 1 if kind == 4 else rng.choice([1, 2, 2, 3])
+        dirs = [0] * k if kind == 2 else [rng.choice([0, 0, 1, 2]) for _ in range(k)]
+        outs = [[nxt + j, dirs[j]] for j in range(k)]
+        nxt += k
+        pick = lambda lo, hi: rng.sample(avail, min(len(avail), rng.randint(lo, hi)))
+        st = [kind, outs, [], [], [], [], [], [], [], [], [], [], False, False]
+        if kind == 0:
+            st[2], st[5], st[11] = [rng.choice(avail)], pick(0, 2), pick(0, 1)
+        elif kind == 1:
+            st[8], st[6], st[11] = pick(1, 2), pick(0, 1), pick(0, 1)
+        elif kind in (2, 3):
+            st[8], st[11] = pick(1, 2), pick(0, 1)
+        else:
+            st[2], st[11] = [rng.choice(avail)], pick(0, 1)
+        steps.append(st)
+        avail += [o[0] for o in outs]
+        rep.count('stampsem-x:step kind=%d outputs=%d' % (kind, k))
+    return steps, False
+
+
+def session_ops(rng, rep, sources, outs, stamps):
+    ops = [[0, 0], [0, 0]]
+    for _ in range(rng.randint(1, 3)):
+        r = rng.random()
+        if r < 0.6 or not outs:
+            ops.append([1, rng.choice(sources)]); rep.count('stampsem-x:touch source')
+        elif r < 0.75:
+            ops.append([1, rng.choice(outs)]); rep.count('stampsem-x:touch output')
+        elif r < 0.9 or not stamps:
+            ops.append([2, rng.choice(outs)]); rep.count('stampsem-x:delete one output')
+        else:
+            ops.append([2, rng.choice(stamps)]); rep.count('stampsem-x:delete stamp')
+        ops.append([0, 0])
+        if rng.random() < 0.7:
+            ops.append([0, 0])
+    return ops
+
+
 def real_make_session(d, rules, goals, fs0, clk, ops):
+    """The session in the real GNU Make: per make [targets whose real recipe ran (written by the recipe itself), targets
+    whose no-op recipe '@:' ran (make --trace announces every target it is about to run the recipe of), failed]."""
     sub = os.path.join(d, 'g')
     shutil.rmtree(sub, ignore_errors=True)
     os.makedirs(sub)
     with open(os.path.join(sub, 'xstamp.sh'), 'w') as f:
         f.write(XSTAMP_SH)
     mk = ['all:' + ''.join(' f%d' % g for g in goals)]
-    for t, prs, oo, recipe, phony, also in rules:
-        mk.append('f%d:%s' % (t, ''.join(' f%d' % p for p in prs)))
-        if recipe:
-            mk.append('\t@sh xstamp.sh $@%s' % ''.join(' f%d' % a for a in also))
+    noop, realr = set(), set()
+    for t, prs, oo, recipe, phony, also, lag in rules:
+        mk.append('f%d:%s%s' % (t, ''.join(' f%d' % p for p in prs), (' |' + ''.join(' f%d' % p for p in oo)) if oo else ''))
+        if recipe == R_REAL:
+            mk.append('\t@sh xstamp.sh %d %d $@%s' % (lag, 1 if phony else 0, ''.join(' f%d' % a for a in also)))
+            realr.add(t)
+        elif recipe == R_NOOP:
+            mk.append('\t@:')
+            noop.add(t)
+        if phony:
+            mk.append('.PHONY: f%d' % t)
     with open(os.path.join(sub, 'Makefile'), 'w') as f:
         f.write('\n'.join(mk) + '\n')
     for x, t in fs0:
@@ -636,9 +838,14 @@ def real_make_session(d, rules, goals, fs0, clk, ops):
     for op, x in ops:
         if op == 0:
             open(os.path.join(sub, 'log'), 'w').close()
-            p = subprocess.run(['make', '-rR'], cwd=sub, capture_output=True, text=True, timeout=60, env=common.impl_env())
+            p = subprocess.run(['make', '-rR', '--trace'], cwd=sub, capture_output=True, text=True, timeout=60, env=common.impl_env())
             log = [int(w[1:]) for w in open(os.path.join(sub, 'log')).read().split()]
-            res.append([log, p.returncode != 0])
+            announced = [int(m.group(1) or m.group(2)) for m in map(TRACE_RE.match, p.stdout.split('\n')) if m]
+            if [t for t in announced if t in realr] != log:
+                # the two observation channels must tell the same story about the real recipes
+                raise RuntimeError('make --trace announces the recipes of %r, the recipes themselves logged %r\n%s' % (
+                    announced, log, p.stdout[-1500:]))
+            res.append([log, [t for t in announced if t in noop], p.returncode != 0])
         elif op == 1:
             n = int(open(os.path.join(sub, 'ctr')).read())
             p = os.path.join(sub, 'f%d' % x)
@@ -654,32 +861,86 @@ def real_make_session(d, rules, goals, fs0, clk, ops):
     return res
 
 
+def ex_stamp_rules(kind, lag):
+    """StampSem.ex_stamp_rules_v: a 2-output step (outputs 10 11, stamp 12, input 1) and one consumer of each output"""
+    return [[10, [12], [], kind, False, [], 0], [11, [12], [], kind, False, [], 0], [12, [1], [], R_REAL, False, [10, 11], lag],
+            [20, [10], [], R_REAL, False, [], 0], [21, [11], [], R_REAL, False, [], 0]]
+
+
 def stage_r_stampsem(rep, rng, n):
-    """The depth-first Make model with cached mtimes (Graph/StampSem.v dmake), in which C03_stamp_consumers_refuted is
-    stated, against the real GNU Make on generated stamp-shaped graphs: recipe logs of every make run compared."""
+    """The depth-first Make model with cached mtimes (Graph/StampSem.v dmake), in which C03_stamp_consumers_refuted and the
+    theorems about the repaired shape are stated, against the real GNU Make: (a) generated stamp-shaped graphs of both
+    shapes of the outs rule, (b) the walk-semantics rules (EmitStamp.xsem_steps) of random abstract scripts for both
+    variants of multitarget_rule.  Per make run the executed real recipes, the executed no-op recipes and the exit
+    status are compared."""
     d = common.scratch('c03ss')
+    witness_ops = [[0, 0], [0, 0], [1, 1], [0, 0], [0, 0]]
     try:
         calls, real = [], []
-        # the witness of the theorem first
-        fixed = [([[10, [12], [], False, False, []], [11, [12], [], False, False, []], [12, [1], [], True, False, [10, 11]],
-                   [20, [10], [], True, False, []], [21, [11], [], True, False, []]], [20, 21], [[1, 5]],
-                  [[0, 0], [0, 0], [1, 1], [0, 0], [0, 0]])]
-        for i in range(n):
+        # the witnesses of stamp_consumers_refuted / stamp_consumers_repaired first
+        fixed = [(ex_stamp_rules(R_NONE, 0), [20, 21], [[1, 5]], witness_ops),
+                 (ex_stamp_rules(R_NOOP, 1), [20, 21], [[1, 5]], witness_ops)]
+        for i in range(max(n, len(fixed))):
             rules, goals, fs0, ops = fixed[i] if i < len(fixed) else gen_stamp_graph(rng, rep)
             calls.append(('stamp.session', [rules, goals, fs0, 1000, ops]))
             real.append(real_make_session(d, rules, goals, fs0, 1000, ops))
             rep.case('stampsem:%r' % ([rules, goals, ops],), True)
-        rep.sample({'stage': 'R:stampsem', 'rules [target, prereqs, order, recipe, phony, also]': calls[0][1][0],
-                    'goals': calls[0][1][1], 'ops': calls[0][1][4], 'make logs': real[0]})
-        dis = common.compare_model(rep, 'R:stampsem (dmake vs GNU Make)', calls, real,
-                                   lambda n_, r: [[list(x[0]), x[1] != 0] for x in r], vm_limit=10)
+        # the theorems, as GNU Make sees them
+        want0 = [[[12, 20, 21], [], False], [[], [], False], [[12, 21], [], False], [[20], [], False]]
+        want1 = [[12, 20, 21], [], [12, 20, 21], []]
+        if real[0] != want0 or [r[0] for r in real[1]] != want1 or real[1][1][1] != [10, 11] or any(r[2] for r in real[1]):
+            rep.fail('R:stampsem - GNU Make does not behave as stamp_consumers_refuted / stamp_consumers_repaired state: %r / %r' % (
+                real[0], real[1]), {'obligation': 'R:stampsem witnesses', 'make': real[:2]}, found_input=False)
+        # (b) abstract scripts -> emit.xsem -> the same session in model and make
+        xcalls, focused = [], []
+        for i in range(n // 2):
+            fxv, lag = rng.random() < 0.5, rng.choice([0, 1])
+            steps, foc = gen_abstract_script(rng, rep)
+            xcalls.append(('emit.xsem', [fxv, lag, steps]))
+            focused.append(foc)
+            rep.count('stampsem-x:fx=%s lag=%d' % (fxv, lag))
+        xraw = common.model_batch(xcalls)
+        for (name, arg), r, foc in zip(xcalls, xraw, focused):
+            xrules, goals = r
+            if not xrules:
+                rep.count('stampsem-x:no rules')
+                continue
+            targets = set(x[0] for x in xrules)
+            sources = sorted(set(p for x in xrules for p in x[1] + x[2]) - targets)
+            stamps = [x[0] for x in xrules if x[5]]
+            outs_ = sorted(targets - set(stamps))
+            fs0 = [[s, 100 + 2 * j] for j, s in enumerate(sources)]
+            if foc and rng.random() < 0.6:
+                # the session of the theorems: build, build, touch a source, build, build
+                ops = [[0, 0], [0, 0], [1, rng.choice(sources)], [0, 0], [0, 0]]
+                rep.count('stampsem-x:session make make touch-source make make')
+            else:
+                ops = session_ops(rng, rep, sources, outs_, stamps)
+            calls.append(('stamp.session', [xrules, goals, fs0, 1000, ops]))
+            real.append(real_make_session(d, xrules, goals, fs0, 1000, ops))
+            rep.case('stampsem-x:%r' % ([arg, ops],), True)
+        rep.sample({'stage': 'R:stampsem', 'rules [target, prereqs, order, recipe 0 none/1 real/2 no-op, phony, also, lag]': calls[1][1][0],
+                    'goals': calls[1][1][1], 'ops': calls[1][1][4], 'make [steps run, no-op recipes run, failed]': real[1]})
+        raw = common.model_batch(calls)
+        dis = []
+        for i, ((name, arg), r, iv) in enumerate(zip(calls, raw, real)):
+            mv = [[list(x[0]), list(x[1]), x[2] != 0] for x in r]
+            if mv != iv:
+                dis.append((i, (name, arg), iv, mv))
+        nx = min(4, len(xcalls))
+        nvm, ok, detail = common.vm_crosscheck(calls[:8] + xcalls[:nx] + calls[-4:], raw[:8] + xraw[:nx] + raw[-4:], limit=16)
+        rep.stage('R:stampsem (dmake vs GNU Make)', cases=len(calls), from_abstract_scripts=len(calls) - max(n, len(fixed)),
+                  disagreements=len(dis), vm_compute_rechecked=nvm, vm_agrees=ok)
+        if not ok:
+            rep.fail('extraction glue: ' + detail, {'obligation': 'vm_compute == extracted model', 'detail': detail}, found_input=False)
     finally:
         shutil.rmtree(d, ignore_errors=True)
     if dis:
         i, call, iv, mv = dis[0]
-        rep.fail('R:stampsem - StampSem.dmake disagrees with GNU Make (%d cases), e.g. rules %r goals %r ops %r: make %r, model %r' % (
-            len(dis), call[1][0], call[1][1], call[1][4], iv, mv),
-            {'obligation': 'R:stampsem', 'call': call, 'make': iv, 'model': mv}, found_input=False)
+        rep.fail('R:stampsem - StampSem.dmake disagrees with GNU Make (%d cases), e.g. rules %r goals %r fs %r ops %r: make %r, model %r' % (
+            len(dis), call[1][0], call[1][1], call[1][2], call[1][4], iv, mv),
+            {'obligation': 'R:stampsem', 'call': call, 'make': iv, 'model': mv,
+             'all': [{'call': c, 'make': a, 'model': b} for _, c, a, b in dis[:10]]}, found_input=False)
     return dis
 
 
@@ -781,16 +1042,16 @@ def default_membership(rep, rng, idx):
     """`make all` from scratch builds exactly what default()/fallback says; alias/test targets depend on members."""
     bad = 0
     with project.Scratch('c03d') as s:
-        # the four shapes that matter are enumerated (idx), further ones are random
-        shapes = [(None, True), (['b'], True), (['c'], True), (['b', 'c'], True), (None, False), (['a', 'c'], False)]
-        dflt, tested = shapes[idx] if idx < len(shapes) else (rng.choice([None, ['a'], ['b', 'c'], ['c']]), rng.random() < 0.7)
-        explicit = dflt is not None
+        # every other project: the tested program is ALSO an explicit default (test() removes it from the implicit defaults only)
+        explicit = [['b', 'c'], None, ['c'], None][idx % 4] or (['b'] if rng.random() < 0.5 else [])
+        tested = True if idx % 2 == 0 else rng.random() < 0.7
         lines = ["project('d')", "a = executable('a', files=['a.c'])", "b = executable('b', files=['b.c'])",
                  "c = executable('c', files=['c.c'])"]
         if explicit:
-            lines.append("default(%s)" % ', '.join(dflt))
+            lines.append("default(%s)" % ', '.join(explicit))
         if tested:
             lines.append("test(c)")
+        rep.count('default-membership:default(%s)%s' % (', '.join(explicit), ' test(c)' if tested else ''))
         lines.append("alias('both', [a, c])")
         files = {n + '.c': 'int main(void){return 0;}\n' for n in 'abc'}
         files['build.bfg'] = '\n'.join(lines) + '\n'
@@ -801,7 +1062,7 @@ def default_membership(rep, rng, idx):
             if rc != 0:
                 rep.fail('configure failed for the default-membership project: %s' % out[-300:], {'script': files['build.bfg']})
                 return 1
-            want = set(dflt) if explicit else ({'a', 'b'} if tested else {'a', 'b', 'c'})
+            want = set(explicit) if explicit else ({'a', 'b'} if tested else {'a', 'b', 'c'})
             if backend == 'make':
                 rcm, recs, mout = project.make(bdir, ['all'], stub_tools=True)
                 got = set(x[5:] for x in filter(None, (step_id(r['argv'], s.src) for r in recs)) if x.startswith('link:'))
@@ -824,9 +1085,6 @@ def default_membership(rep, rng, idx):
 
 
 # ----------------------------------------------------------------------------- system level: dependency-shape projects
-STAMP_CLASS = 'make-stamp-output-consumer-stale'
-
-
 def _mtimes(build, outs):
     r = {}
     for o in outs:
@@ -835,6 +1093,85 @@ def _mtimes(build, outs):
         except OSError:
             r[o] = None
     return r
+
+
+def stamp_scenario_script():
+    rec = shtools.ARGVREC
+    return '\n'.join([
+        "project('stamp')",
+        "bs = build_step(['out1.txt', 'out2.txt'], cmd=[%r, '-o', 'out1.txt', '-o', 'out2.txt', 'gen'], files=['gen.in'])" % rec,
+        "c1 = build_step('c1.txt', cmd=[%r, '-o', 'c1.txt', 'use'], files=[bs[0]])" % rec,      # consumes out1.txt through files=
+        "c2 = build_step('c2.txt', cmd=[%r, '-o', 'c2.txt', 'use', bs[1]])" % rec,             # out2.txt named in the command line
+        "default(c1, c2)"]) + '\n'
+
+
+def stamp_scenario(rep):
+    """The repro of finding C03-make-stamp-consumer-stale as a real project, always run: a 2-output build_step from gen.in
+    and one consumer step per output; configured by the real bfg9000 of the tree under test (Make backend), real GNU Make:
+      make             -> all four files exist
+      make             -> nothing re-created
+      touch gen.in; make -> the 2-output step AND both consumers re-created
+      make             -> nothing re-created.
+    A deviation is a failing input; it belongs to the class of the known finding only when it is exactly 'a consumer of
+    an output of the 2-output step was left stale by the make that re-ran the step' / 'that consumer was rebuilt by the
+    later make in which nothing was touched'."""
+    import time
+    script = stamp_scenario_script()
+    files = ['out1.txt', 'out2.txt', 'c1.txt', 'c2.txt']
+    consumers = {'c1.txt', 'c2.txt'}
+    bad = 0
+    rep.case('stamp-scenario', True)
+    with project.Scratch('c03s') as s:
+        project.write_tree(s.src, {'build.bfg': script, 'gen.in': 'data\n'})
+        rc, out = project.configure(s.src, s.build, 'make')
+        if rc != 0:
+            return rep.fail('configure fails on the 2-output build_step scenario: %s' % out[-400:],
+                            {'kind': 'stamp-scenario', 'script': script, 'output': out[-1500:]})
+        makefile = project.read(s.build, 'Makefile') or ''
+        mlines = makefile.split('\n')
+        rule_text = [x for i, l in enumerate(mlines) if l.startswith('out1.txt ') and ':' in l
+                     for x in [l] + [r for r in mlines[i + 1:i + 2] if r.startswith('\t')]]
+
+        def step(label, touch=None):
+            time.sleep(0.02)          # coarse kernel timestamps: 'now' is after the last product
+            if touch:
+                os.utime(os.path.join(s.src, touch), None)
+            before = _mtimes(s.build, files)
+            rcm, recs, mout = project.make(s.build, ['all'], stub_tools=True)
+            after = _mtimes(s.build, files)
+            return rcm, set(f for f in files if after[f] != before[f]), set(f for f in files if after[f] is None), mout
+
+        def report(label, touched, got, want, mout, classes=()):
+            return rep.fail('2-output build_step with one consumer per output, %s: make re-created %r, the script implies %r' % (
+                label, sorted(got), sorted(want)),
+                {'kind': 'stamp-scenario', 'script': script, 'step': label, 'touched': touched, 'recreated': sorted(got),
+                 'expected': sorted(want), 'not_rebuilt': sorted(want - got), 'makefile_rules': rule_text,
+                 'make_output': mout[-800:]}, classes=classes)
+
+        rcm, got, missing, mout = step('first build')
+        if rcm != 0 or missing or got != set(files):
+            return report('first build (rc %d, missing %r)' % (rcm, sorted(missing)), None, got, set(files), mout)
+        rcm, got, missing, mout = step('second build')
+        if rcm != 0 or got:
+            bad += report('a build right after the first build (rc %d)' % rcm, None, got, set(), mout)
+        rcm, got, missing, mout = step('touch', 'gen.in')
+        stale = set(files) - got
+        if rcm != 0 or got != set(files):
+            only_stale_consumers = rcm == 0 and 'out1.txt' in got and 'out2.txt' in got and stale <= consumers
+            bad += report('after touching gen.in (rc %d)' % rcm, 'src:gen.in', got, set(files), mout,
+                          classes=(STAMP_CLASS,) if only_stale_consumers else ())
+            if only_stale_consumers:
+                rep.count('stamp-scenario:consumer left stale by the make that re-ran the step')
+        rcm, got, missing, mout = step('build after the rebuild')
+        if rcm != 0 or got:
+            repaired_late = bool(rcm == 0 and got and got == stale and stale <= consumers)
+            bad += report('a build right after the rebuild, nothing touched (rc %d)' % rcm, None, got, set(), mout,
+                          classes=(STAMP_CLASS,) if repaired_late else ())
+            if repaired_late:
+                rep.count('stamp-scenario:stale consumer rebuilt by the later make')
+        rep.sample({'stamp scenario': 'ran', 'rules of the outputs in the Makefile': rule_text, 'deviations': bad})
+    rep.traces += 1
+    return bad
 
 
 def graph_project(rep, rng, idx):
@@ -960,28 +1297,21 @@ def graph_project(rep, rng, idx):
     return bad
 
 
-def load_own_findings(rep):
-    """known_findings.json is merged from findings.d/ by the coordinator; until then (and afterwards, idempotently)
-    take the open entries of findings.d/C03.json as well."""
-    import json
-    try:
-        own = json.load(open(os.path.join(common.VERIF, 'findings.d', 'C03.json')))
-    except (OSError, ValueError):
-        return
-    have = set(k['id'] for k in rep.known)
-    rep.known.extend(k for k in own if k.get('status') == 'open' and k.get('property') == 'C03' and k['id'] not in have)
-
-
 def run(rep):
     rng = random.Random(rep.seed)
     thorough = rep.tier == 'thorough'
     rep.proof_stage(coqchk=thorough)
-    load_own_findings(rep)
+    repaired, status = select_findings(rep)
+    rep.stage('variant', repaired=repaired, probe=_VARIANT.get('detail', ''), finding_status=status, model_fx=model_variant(rep),
+              stamp_finding_suppressed=any(k['id'] == STAMP_ID for k in rep.known))
+    rep.count('variant:multitarget_rule %s (finding %s recorded as %s)' % (
+        'repaired - outs rule with the no-op recipe' if repaired else 'as first written - outs rule without recipe', STAMP_ID, status))
     dis = stage_w_defaults(rep, rng, 2000 if thorough else 300)
     found = 0
     dis_e, bad_e = stage_w_emit(rep, random.Random(rng.random()), 300 if thorough else 40)
     found += bad_e
     dis_r = stage_r_stampsem(rep, random.Random(rng.random()), 400 if thorough else 40)
+    found += stamp_scenario(rep)
     for i in range((10 if thorough else 2) * (3 if (dis_e or dis_r) else 1)):
         found += graph_project(rep, rng, i)
     if dis_e and not found:
@@ -990,7 +1320,7 @@ def run(rep):
         found += bad_e2
     for i in range((12 if thorough else 2) * (3 if dis else 1)):
         found += one_project(rep, rng, i)
-    for i in range(12 if thorough else 4):
+    for i in range((12 if thorough else 4) * (2 if dis else 1)):
         found += default_membership(rep, rng, i)
     rep.stage('projects', built=rep.traces, failures=found)
     if rep.traces == 0:
